@@ -266,6 +266,19 @@ CLAIMS["C08"] = (
     "weights) and its Ceiling lookup, PaddingMod, so 'same physical database as Mycat' is decided for the hash kernels and the lookups only.",
     "DESIGN.md section 4, C08")
 
+CLAIMS["C05"] = (
+    "The two contract-expressible mechanisms of the property: (1) an UPDATE is accepted only when no assignment of its SET list targets the "
+    "sharding column of the table the assigned column resolves to, and INSERT ... ON DUPLICATE KEY UPDATE only when none targets the "
+    "sharding column of the inserted table (loop invariants over the assignment lists, any length; the comparison uses the lower-cased "
+    "column name recorded before the qualifiers are stripped); (2) MergeExecResult returns the 64-bit sum of the shards' affected-row "
+    "counts, the or of their status flags and the smallest non-zero insert id (fold specifications, loop invariant, any number of shards).",
+    "Assumed: needCreateColumnNameDecorator (alias / database / table qualifier resolution of a column) as an uninterpreted function of the "
+    "statement and the column node; the pooled result object is distinct from the shard results. NOT decided: that the statement is routed "
+    "to every shard holding a matching row (the routing kernel is verified under C01; handleUpdateWhere / handleDeleteWhere, which reach "
+    "it through the AST visitors, are not under contract), and the data half of the property (the rows changed equal those a single "
+    "database would change) -- that needs an SQL execution semantics no contract here expresses.",
+    "DESIGN.md section 4, C05")
+
 NA = {
  "C02": "not applicable to contract-based verification here: the oracle is the result of executing SQL on data (what one MySQL holding all shards would return); no contract within reach expresses an SQL execution semantics, and the rewriter is ~3k lines of visitors over TiDB AST types (DESIGN.md section 5)",
  "C06": "not applicable: the property compares a token pre-check with the decision of the yacc-generated parser; the specification is that parser (tables + hand-written lexer), which is outside the verifier's subset (DESIGN.md section 5)",
